@@ -6,6 +6,7 @@ CONSTANTS
   PRICE = {2, 6, 10}
   AMOUNT = {1, 5, 9}
   TIME = {0, 1, 2, 3}
+  DupKinds = {0, 1, 2}
   MaxBatch = 1
   MaxLen = 24
 INVARIANT Emit
